@@ -153,6 +153,13 @@ func (h *Harness) RandomProgs(n int) []*report {
 			g := &core.ProgGen{R: r, MaxDepth: 1 + r.Intn(3)}
 			p := g.Gen()
 			Decorate(r, p)
+			// dotted namespaces whose later segment repeats (part of) an earlier one
+			if r.Intn(2) == 0 {
+				RenameNamespace(p, "n.two", []string{"n.on", "n.one.n", "two", "n.two.two"}[r.Intn(4)])
+			}
+			// {alias n.two.n} makes Soy read the fully qualified n.one.t0 as
+			// n.two.n.one.t0 (language rule): such an alias cannot be declared
+			dropAmbiguousAliases(p)
 			c := &Case{Family: "prog-random", Prog: p, Style: core.Style{Parens: r.Intn(2), Tight: r.Intn(3) == 0}}
 			cases = append(cases, c)
 		}
@@ -396,8 +403,8 @@ func (h *Harness) Classify(c *Case) []string {
 	var feats []string
 	cur := c
 	for _, rw := range rewrites {
-		if c.Msgs != "" {
-			break // catalogue fields are tied to the original bodies
+		if c.Msgs != "" || c.Direct != nil {
+			break // catalogue fields are tied to the original bodies; direct cases have hand-written source
 		}
 		q, changed := rw.f(cur.Prog)
 		if !changed {
@@ -453,6 +460,9 @@ func printDirs(c *Case) (core.Cmd, []core.Cmd) {
 // hypotheses on the real code: "JS leaves raw what Go escapes" and "JS applies
 // the chain in the reverse order".
 func (h *Harness) symptomOf(c *Case) string {
+	if c.Direct != nil {
+		return symptom(c)
+	}
 	if pc, dirs := printDirs(c); pc != nil && len(dirs) > 0 && !c.Go.Err && !c.JSObs.Err {
 		if html.UnescapeString(c.Go.Out) == c.JSObs.Out && c.Go.Out != c.JSObs.Out {
 			return "js-unescaped"
